@@ -592,6 +592,14 @@ func (ex *Exec) constInt(e ast.Expr, def int) int {
 		return def
 	}
 	t := ex.evalTerm(e)
+	for !t.IsConst() && t.op == "ite" {
+		// a bound selected among constants: fork on the selector
+		if ex.decide(t.args[0], ex.where(e)) {
+			t = t.args[1]
+		} else {
+			t = t.args[2]
+		}
+	}
 	if !t.IsConst() {
 		ex.unsupported("non-constant slice bound at %s", ex.where(e))
 	}
